@@ -411,7 +411,9 @@ func c10r3(rc *core.RC) {
 	}
 	handles := []handle{
 		{"encoder", "FieldQuery", func(fn, file string) bool { return strings.Contains(strings.ToLower(fn), "build") }},
-		{"decoder", "Path", func(fn, file string) bool { return strings.Contains(fn, "PathBuilder") || strings.Contains(strings.ToLower(fn), "build") }},
+		{"decoder", "Path", func(fn, file string) bool {
+			return strings.Contains(fn, "PathBuilder") || strings.Contains(strings.ToLower(fn), "build")
+		}},
 	}
 	for _, h := range handles {
 		n := 0
